@@ -75,6 +75,14 @@ PROPS = {
                        "selected positions, or the block is skipped exactly when it holds none. The reversed-slice recasting, keys that mix "
                        "integers / lists / reversed slices on n-d arrays and multi-chunk dask values are bounded",
     },
+    "C23": {
+        "level": "exploration",
+        "explanation": "bounded contracts on the real random routines: a seeded Generator / RandomState array is one realization -- "
+                       "recomputing, every derived program (slice, rechunk, transpose, elementwise, reduction, fused), either compute order and "
+                       "rebuilding from the same seed give the same values; executing a graph does not advance generators stored in it and "
+                       "the next draw from the same generator differs. Nothing is proved: the property is about mutable generator state "
+                       "consumed across a history of calls, which the function-level VC generator does not model",
+    },
     "C26": {
         "level": "other",
         "frame": ["importfx"],
